@@ -67,6 +67,9 @@ type ChainReq struct {
 	// MaxPolls is reached; the result lists the distinct consecutive replies.
 	Poll    *PollSpec `json:"poll,omitempty"`
 	SleepMs int       `json:"sleep_ms,omitempty"`
+	// Exec: commands run (in the child's network namespace, as root) before the datagram is handled - a change of
+	// the environment under the running server, e.g. interfaces being renamed
+	Exec [][]string `json:"exec,omitempty"`
 	// NoFDs: while this datagram is handled the process cannot open another descriptor (RLIMIT_NOFILE soft
 	// limit 0): whatever the send path needs to open then, it does not get
 	NoFDs bool `json:"no_fds,omitempty"`
@@ -85,6 +88,10 @@ type FileWrite struct {
 	MtimeAgoS int `json:"mtime_ago_s,omitempty"`
 	// EditAfterUs/Content2 (with Rename): this many microseconds after the rename the new file is edited in
 	// place (single pwrite of Content2) - a second change hard on the heels of the replacement
+	// Retarget: the content goes into a NEW file of this name (under {DIR}) and the symbolic link Link (under
+	// {DIR}) is re-pointed to it atomically (ln -sfn: a temporary link renamed over the old one)
+	Retarget string `json:"retarget,omitempty"`
+	Link     string `json:"link,omitempty"`
 	// RemoveFirst (with Create): the file is removed, GapUs microseconds later it is created again with the
 	// content (rm + cp, an editor that unlinks before it writes, a configuration-management tool)
 	RemoveFirst bool `json:"remove_first,omitempty"`
@@ -484,7 +491,17 @@ func chainChild() {
 		rr := ReqRes{I: i}
 		if rq.Write != nil {
 			path := filepath.Join(dir, rq.Write.Name)
-			if rq.Write.Rename {
+			if rq.Write.Retarget != "" {
+				nf := filepath.Join(dir, rq.Write.Retarget)
+				tmp := filepath.Join(dir, rq.Write.Link+".new")
+				if err := os.WriteFile(nf, []byte(rq.Write.Content), 0o644); err != nil {
+					rr.WriteErr = err.Error()
+				} else if err := os.Symlink(nf, tmp); err != nil {
+					rr.WriteErr = err.Error()
+				} else if err := os.Rename(tmp, filepath.Join(dir, rq.Write.Link)); err != nil {
+					rr.WriteErr = err.Error()
+				}
+			} else if rq.Write.Rename {
 				if rq.Write.KeepOld {
 					os.Remove(path + ".bak")
 					os.Link(path, path+".bak")
@@ -539,6 +556,13 @@ func chainChild() {
 					rr.WriteErr = err.Error()
 				}
 				f.Close()
+			}
+		}
+		for _, argv := range rq.Exec {
+			if len(argv) > 0 {
+				if o, err := exec.Command(argv[0], argv[1:]...).CombinedOutput(); err != nil {
+					rr.WriteErr = fmt.Sprintf("%v: %v: %s", argv, err, o)
+				}
 			}
 		}
 		if rq.SleepMs > 0 {
